@@ -467,7 +467,11 @@ def vec_agree(a, b, st, axis, others=()):
     flip) only rotation-invariant quantities are compared"""
     if any(x != x for x in list(a) + list(b)):
         return all((x != x) == (y != y) for x, y in zip(a, b))
-    if 0 < st < 1e-7 or (st == 0 and axis[0] == 0 and axis[1] == 0 and abs(axis[2]) != 1):
+    # narrow knife-edge rule: axis within 1e-7 rad of +-z but not exactly (0, 0, +-1) -- whether 1 - z^2 is 0 or a few
+    # 1e-16 (z = +-1 or +-(1 - 2^-53)) is decided by the rounding of make_unit_vector, and with it rotate()'s branch
+    # (arbitrary azimuth 0 vs the true azimuth of the residual (x, y)); only the azimuth about the axis can differ
+    near_axis = math.hypot(axis[0], axis[1]) < 1e-7 and not (axis[0] == 0 and axis[1] == 0 and abs(axis[2]) == 1)
+    if near_axis or 0 < st < 1e-7:
         return abs(dot(a, axis) - dot(b, axis)) <= 1e-7 and abs(dot(a, a) - dot(b, b)) <= 1e-9
     atol = 1e-10 + (4e-16 / st if 0 < st < MIN_ACC else 0.0)
     return close(list(a), list(b), rtol=1e-9, atol=atol)
